@@ -782,7 +782,20 @@ func (x *Xlat) hasContract(fi *FuncInfo) bool {
 	if s == nil || s.Inline {
 		return false
 	}
-	return len(s.Requires) > 0 || len(s.Ensures) > 0 || s.HasMod || s.Trusted != "" || s.Pure || s.NoPanic
+	// view-aware: a function whose only clauses belong to other properties' views is treated as having no contract
+	// in this view (it is inlined like any other helper)
+	n := 0
+	for _, c := range s.Requires {
+		if c.inView(x.view) {
+			n++
+		}
+	}
+	for _, c := range s.Ensures {
+		if c.inView(x.view) {
+			n++
+		}
+	}
+	return n > 0 || s.HasMod || s.Trusted != "" || s.Pure || s.NoPanic
 }
 
 func (x *Xlat) nnArgs(st *State, out *Outcomes, fi *FuncInfo, args []Arg, pos token.Pos) {
